@@ -34,6 +34,14 @@ def apply_scenarios(rng, n):
             ops[1]['dur'] = {'kind': 'map', 'map': {str(rng.randrange(len(ops[1]['tasks']))): rng.choice([0.5, 1.0])}, 'default': 0.01}
         if ops[0].get('join_first') and len(ops) > 1:
             ops[0].pop('join_first')
+        if pool['start_method'] == 'fork' and any(o.get('task_timeout') for o in ops) and rng.random() < .35:
+            # a task that would have finished on its own shortly after its timeout, an error callback that blocks longer than that,
+            # and more tasks queued behind it on the same worker
+            for o in ops:
+                if o.get('task_timeout'):
+                    for k in list(o['dur']['map']):
+                        o['dur']['map'][k] = rng.choice([0.25, 0.3, 0.4])
+                    o['cb_dur'] = rng.choice([0.5, 1.0])
         sc = {'seed': rng.randint(0, 10 ** 6), 'pool': pool, 'ops': ops}
         if rng.random() < .4 and any(o.get('task_timeout') for o in ops):
             # let completions race with the timeout scan
